@@ -63,7 +63,8 @@ pub fn run(r: &Req) -> Option<String> {
     let xs = crate::types::as_f64(&r.series("xs"));
     let ys = crate::types::as_f64(&r.series("ys"));
     let len = xs.len();
-    let log_in = r.s("in") != "vec";
+    let log_in = r.s("in") == "log" || r.s("in").is_empty();
+    let deque_in: Option<usize> = r.s("in").strip_prefix("deque").map(|k| k.parse().unwrap_or(0));
     type OC = LogOut<f64>;
     type U = f64;
     macro_rules! on_input {
@@ -71,6 +72,13 @@ pub fn run(r: &Req) -> Option<String> {
             if log_in {
                 let __a = LogVec(xs.clone());
                 let __b = LogVec(ys.clone());
+                let ($view, $view2) = (&__a, &__b);
+                $body
+            } else if let Some(k) = deque_in {
+                // a real VecDeque whose ring buffer is rotated (wrapped when k > 0): its unchecked
+                // accessors are observed through the debug-profile precondition checks (abort)
+                let __a = crate::backends::deque_rot(&xs, k);
+                let __b = crate::backends::deque_rot(&ys, k + 1);
                 let ($view, $view2) = (&__a, &__b);
                 $body
             } else {
@@ -87,8 +95,8 @@ pub fn run(r: &Req) -> Option<String> {
                 "rolling_apply_idx" => __roll_finish!(r, len, OC, U, out, view.rolling_apply_idx::<OC, U, _>(w, |_s, _e, v| v, out)),
                 "rolling2_apply" => __roll_finish!(r, len, OC, U, out, view.rolling2_apply::<OC, U, _, _, _>(view2, w, |_rm, v| v.0 + v.1, out)),
                 "rolling2_apply_idx" => __roll_finish!(r, len, OC, U, out, view.rolling2_apply_idx::<OC, U, _, _, _>(view2, w, |_s, _e, v| v.0 + v.1, out)),
-                "rolling_custom" => __roll_finish!(r, len, OC, U, out, view.rolling_custom::<OC, U, _>(w, |sl| sl.len() as f64, out)),
-                _ => __roll_finish!(r, len, OC, U, out, view.rolling2_custom::<OC, U, _, _, _>(view2, w, |a, b| (a.len() + b.len()) as f64, out)),
+                "rolling_custom" => __roll_finish!(r, len, OC, U, out, view.rolling_custom::<OC, U, _>(w, |_sl| 1.0, out)),
+                _ => __roll_finish!(r, len, OC, U, out, view.rolling2_custom::<OC, U, _, _, _>(view2, w, |_a, _b| 2.0, out)),
             }
         })));
     }
@@ -181,8 +189,9 @@ pub fn generate(tier: &str, _rng: &mut Rng) -> (Vec<String>, bool) {
     for f in DRIVERS {
         for len in 0..=maxlen + 1 {
             for w in 0..=len + 3 {
-                for input in ["log", "vec"] {
+                for input in ["log", "vec", "deque1", "deque2"] {
                     for p in ["ret", "out"] {
+                        if input.starts_with("deque") && *f == "rolling2_custom" && false { continue; }
                         let two = f.contains('2');
                         let len2s: Vec<usize> = if two { vec![len, len.saturating_sub(1), len + 1, 0] } else { vec![len] };
                         for len2 in len2s {
@@ -206,7 +215,7 @@ pub fn generate(tier: &str, _rng: &mut Rng) -> (Vec<String>, bool) {
                     if w >= 2 { mps.push(Some(w / 2)); mps.push(Some(w - 1)); }
                     mps.dedup();
                     for (k, mp) in mps.into_iter().enumerate() {
-                        let input = if (pat as usize + w + k) % 2 == 0 { "log" } else { "vec" };
+                        let input = ["log", "vec", "deque1", "log", "vec", "deque3"][(pat as usize + w + k) % 6];
                         let p = if (pat as usize / 2 + w + k) % 2 == 0 { "ret" } else { "out" };
                         let mut l = format!("C10 f={} in={} p={} w={} mp={} xs={}{}", f.name, input, p, w, mp_tok(mp), series(len, pat, VALS_A, f.nullable), f.extra);
                         if f.arity == 2 {
@@ -225,6 +234,7 @@ pub fn generate(tier: &str, _rng: &mut Rng) -> (Vec<String>, bool) {
             let xs = crate::cases::join(&s);
             for (pct, rev) in [(0, 0), (0, 1), (1, 0), (1, 1)] {
                 out.push(format!("C10 f=vrank in=log p=ret pct={} rev={} xs={}", pct, rev, xs));
+                if len >= 2 { out.push(format!("C10 f=vrank in=deque1 p=ret pct={} rev={} xs={}", pct, rev, xs)); }
             }
             for kth in 0..=len + 1 {
                 for (sort, rev) in [(0, 0), (1, 0), (0, 1), (1, 1)] {
@@ -242,5 +252,5 @@ pub fn generate(tier: &str, _rng: &mut Rng) -> (Vec<String>, bool) {
 
 pub fn rule(tier: &str) -> String {
     let n = if tier == "thorough" { 7 } else { 5 };
-    format!("exhaustive: (a) the 6 driver entry points on the instrumented input (LogVec: logs/validates every uget/uslice) and on real Vec, returned and caller-buffer paths into the instrumented output (LogOut: counts writes per slot, checked at assume_init), len 0..={}, window 0..=len+3, second series equal/shorter/longer/empty; (b) all {} catalogued rolling entry points, every null subset up to len {}, windows 0..=len+3, min_periods in {{omitted,0,1,w/2,w-1,w}}; (c) vrank / varg_partition / vpartition / vquantile over {{null,1,2}}^len (ties, nulls anywhere), kth 0..=len+1, all flags. Oracle applied to the logs: reads < len, 0<=start<=end<=len, every slot written exactly once when the call returns. non-trivial = len >= 2.", n + 1, ROLL.len(), n)
+    format!("exhaustive: (a) the 6 driver entry points on the instrumented input (LogVec: logs/validates every uget/uslice), on real Vec and on real VecDeque with a rotated (wrapped) ring buffer, returned and caller-buffer paths into the instrumented output (LogOut: counts writes per slot, checked at assume_init), len 0..={}, window 0..=len+3, second series equal/shorter/longer/empty; (b) all {} catalogued rolling entry points, every null subset up to len {}, windows 0..=len+3, min_periods in {{omitted,0,1,w/2,w-1,w}}; (c) vrank / varg_partition / vpartition / vquantile over {{null,1,2}}^len (ties, nulls anywhere), kth 0..=len+1, all flags. Oracle applied to the logs: reads < len, 0<=start<=end<=len, every slot written exactly once when the call returns. non-trivial = len >= 2.", n + 1, ROLL.len(), n)
 }
